@@ -134,6 +134,13 @@ BTree_check_inner(BTree *self, Bucket *nextbucket)
             child = self->data[i].child;
             CHECK(SameType_Check(self, child),
                     "BTree children have different types");
+            UNLESS (PER_USE(child))
+                goto Done;
+            activated_child = child;
+            /* no empty interior nodes either (as the Python _check) */
+            CHECK(child->len >= 1, "Bucket length < 1");
+            PER_ALLOW_DEACTIVATION(child);
+            activated_child = NULL;
             if (i == self->len - 1)
                 bucketafter = nextbucket;
             else
